@@ -97,14 +97,17 @@ func Choose(n int) int { return int(next("choose").Value) }
 // Assume restricts the explored inputs.
 func Assume(c bool) {
 	if !c {
-		panic(AssumeViolated{})
+		finish("assume-violated")
 	}
 }
 
 // Assert states the property.
 func Assert(c bool, label string) {
 	if !c {
-		panic(AssertFailure{label})
+		// End the replay right here: unwinding through the code under test
+		// (deferred unlocks of a lock that is not held at this point, ...)
+		// could turn the failure into an unrecoverable runtime error.
+		finish("assert:" + label)
 	}
 }
 
